@@ -38,8 +38,8 @@ def main():
     try:
         repo = scratch / "repo"
         shutil.copytree("/repo", repo, ignore=shutil.ignore_patterns(".git", "__pycache__"))
-        env0 = dict(os.environ, PYTHONPATH="/repo", PYTHONDONTWRITEBYTECODE="1")
-        env1 = dict(os.environ, PYTHONPATH=str(repo), PYTHONDONTWRITEBYTECODE="1")
+        env0 = dict(os.environ, PYTHONPATH="/repo", PYTHONDONTWRITEBYTECODE="1", OMP_NUM_THREADS="2", MKL_NUM_THREADS="2")
+        env1 = dict(os.environ, PYTHONPATH=str(repo), PYTHONDONTWRITEBYTECODE="1", OMP_NUM_THREADS="2", MKL_NUM_THREADS="2")
         demo = sd / "demo.py"
         if demo.exists():
             rc0, o0 = sh([PY, str(demo)], cwd=str(scratch), env=env0, timeout=600)
